@@ -1075,7 +1075,8 @@ private:
            eDefaultElementNSAllocatorBlockSize = 10,
            eDefaultPIAllocatorBlockSize = 10,
            eDefaultTextAllocatorBlockSize = 20,
-           eDefaultTextIWSAllocatorBlockSize = 20 };
+           eDefaultTextIWSAllocatorBlockSize = 20,
+           eMaximumTemplateDepth = 100000 };
 
     ElementTemplateElementStackType     m_elementRecursionStack;
 
